@@ -303,7 +303,7 @@ impl Property for P {
         "C16"
     }
     fn rule(&self) -> String {
-        "flows at redirect depth 0..3 under both auth policies; at every depth 0..60 tagged headers are added in the prepare state with names drawn from cookie / Cookie / authorization / AUTHORIZATION / connection / host / content-length (where C17 allows them) and ordinary names, some with non-UTF-8 values, while the original request carries its own cookie, authorization and (body methods) content-length. The final request head is written through one buffer or through small varying buffers; each request head is parsed by the strict parser: every added (name, value) must be on the wire, in the order added, and before any original header. class = special name x depth x policy.".into()
+        "flows at redirect depth 0..3 under both auth policies; at every depth 0..60 tagged headers are added in the prepare state with names drawn from cookie / Cookie / authorization / AUTHORIZATION / connection / host / content-length (where C17 allows them) and ordinary names, some with non-UTF-8 values, while the original request carries its own cookie, authorization and (body methods) content-length. The final request head is written through one buffer or through small varying buffers; each request head is parsed by the strict parser: every added (name, value) must be on the wire, in the order added, and before any original header. class = special name x depth x policy. One head in five is written through buffers grown to exactly the line to come (the first size accepted must be the size written); content-length values may be padded with zeros.".into()
     }
     fn assumptions(&self) -> Vec<String> {
         vec![
